@@ -1,30 +1,11 @@
 (* C02 -- the library's description reader (mirror: read_desc) applied to written bytes *)
-From Coq Require Import ZArith List Bool Lia ZifyBool.
+From Coq Require Import ZArith List Bool Lia ZifyBool String.
 Import ListNotations.
 Require Import SC3.model.Scgf SC3.proofs.C02_scgf.
 Open Scope Z_scope.
 
-Lemma rd_core_rt : forall name consts ctlw names units r,
-  pstr_ok name = true ->
-  i32_ok (zlen consts) = true -> forallb w32_ok consts = true ->
-  i32_ok (zlen ctlw) = true -> forallb w32_ok ctlw = true ->
-  i32_ok (zlen names) = true -> forallb pname_ok names = true ->
-  i32_ok (zlen units) = true -> forallb ugen_ok units = true ->
-  rd_core (enc_pstr name
-           ++ enc_i32 (zlen consts) ++ enc_list enc_w32 consts
-           ++ enc_i32 (zlen ctlw) ++ enc_list enc_w32 ctlw
-           ++ enc_i32 (zlen names) ++ enc_list enc_pname names
-           ++ enc_i32 (zlen units) ++ enc_list enc_ugen units ++ r)
-  = Ok ((name, consts, ctlw, names, units), r).
-Proof.
-  intros. unfold rd_core, pbind.
-  rewrite rd_pstr_rt by assumption.
-  rewrite (rd_counted_i32_rt w32_ok enc_w32 rd_w32 RT_w32 NE_w32) by assumption.
-  rewrite (rd_counted_i32_rt w32_ok enc_w32 rd_w32 RT_w32 NE_w32) by assumption.
-  rewrite (rd_counted_i32_rt pname_ok enc_pname rd_pname RT_pname NE_pname) by assumption.
-  rewrite (rd_counted_i32_rt ugen_ok enc_ugen rd_ugen RT_ugen NE_ugen) by assumption.
-  reflexivity.
-Qed.
+Lemma skipn_magic : forall r : bytes, skipn 4 (magic ++ r) = r.
+Proof. reflexivity. Qed.
 
 (* the reader sees exactly the written structure; it ignores everything after the variant count *)
 Lemma read_desc_enc : forall d, def_ok d = true -> read_desc (enc_def d) = desc_of_def d.
@@ -32,10 +13,10 @@ Proof.
   intros d H. unfold read_desc. rewrite (by_def d H). simpl negb. cbv iota.
   pose proof H as Hok. unfold def_ok in H. split_andb.
   unfold enc_def, enc_header, enc_body, pbind. repeat rewrite <- app_assoc.
-  change (rd_take 4) with (rd_take (List.length magic)). rewrite rd_take_app.
+  cbv beta. rewrite skipn_magic.
   rewrite (rd_i32_rt 2) by reflexivity. rewrite (rd_i16_rt 1) by reflexivity.
   change (2 <? 2) with false. cbv iota. cbv beta.
-  rewrite rd_core_rt by assumption.
+  rewrite (rd_core_w_rt lib_rd_pstr RT_lib_pstr) by assumption.
   rewrite rd_i16_rt by assumption. unfold pret. reflexivity.
 Qed.
 
@@ -177,4 +158,278 @@ Proof.
     destruct (255 <? _) eqn:E255; [discriminate|].
     inversion H; subst. cbn [ds_ctls]. rewrite merge_defaults_spec. cbn [fst].
     repeat split; [lia | apply merged_names | apply merged_rates].
+Qed.
+
+Local Transparent merge_defaults.
+
+(* ------------------------------------------------------------------ *)
+(* def_name_from_bytes; the regenerated rate tables                    *)
+
+Lemma def_name_of_enc : forall d, def_ok d = true -> def_name_of (enc_def d) = Some (d_name d).
+Proof.
+  intros d H. unfold def_name_of. rewrite (by_def d H). simpl negb. cbv iota.
+  unfold def_ok in H. split_andb.
+  unfold enc_def, enc_header, enc_body, pbind. repeat rewrite <- app_assoc.
+  cbv beta. rewrite skipn_magic.
+  rewrite (rd_i32_rt 2) by reflexivity. rewrite (rd_i16_rt 1) by reflexivity.
+  rewrite lib_rd_pstr_rt by assumption. reflexivity.
+Qed.
+
+(* UGen._rate_number and SynthDesc._RATE_NAME (both regenerated) are inverse to each other *)
+Lemma rate_tables_consistent_l :
+  forallb (fun p => match nth_error Gen_scgftables.gen_rate_names (Z.to_nat (snd p)) with
+                    | Some n => String.eqb n (fst p) | None => false end) Gen_scgftables.gen_rate_number = true
+  /\ nth_error Gen_scgftables.gen_rate_names (Z.to_nat Gen_scgftables.gen_rate_default) = Some "scalar"%string
+  /\ List.length Gen_scgftables.gen_rate_names = S (List.length Gen_scgftables.gen_rate_number).
+Proof. vm_compute. repeat split. Qed.
+
+(* ------------------------------------------------------------------ *)
+(* In/Out bus units: starting channel -> control name, for any control unit *)
+
+Lemma nth_error_split : forall {A} (l : list A) n x, nth_error l n = Some x ->
+  l = firstn n l ++ x :: skipn (S n) l /\ List.length (firstn n l) = n.
+Proof.
+  intros A l; induction l as [|a l IH]; intros [|n] x H; simpl in H; try discriminate.
+  - inversion H; subst. split; reflexivity.
+  - destruct (IH n x H) as [E L]. split; [simpl; f_equal; exact E | simpl; f_equal; exact L].
+Qed.
+
+Lemma nth_error_mid : forall {A} (l1 l2 : list A) y k,
+  nth_error (l1 ++ y :: l2) k =
+  if Nat.eqb k (List.length l1) then Some y
+  else if Nat.ltb k (List.length l1) then nth_error l1 k else nth_error l2 (k - S (List.length l1)).
+Proof.
+  intros A l1 l2 y k. destruct (Nat.eqb_spec k (List.length l1)) as [E|E].
+  - subst. rewrite nth_error_app2 by lia. rewrite Nat.sub_diag. reflexivity.
+  - destruct (Nat.ltb_spec k (List.length l1)) as [L|L].
+    + apply nth_error_app1; exact L.
+    + rewrite nth_error_app2 by lia. destruct (k - List.length l1)%nat as [|m] eqn:Em; [lia|].
+      simpl. f_equal. lia.
+Qed.
+
+Lemma nth_error_upd : forall {A} (l l' : list A) j f, upd l j f = Some l' ->
+  forall k, nth_error l' k = if Nat.eqb k (Z.to_nat j) then option_map f (nth_error l k) else nth_error l k.
+Proof.
+  intros A l l' j f H k. unfold upd in H.
+  destruct ((0 <=? j) && (j <? zlen l)) eqn:C; [|discriminate].
+  destruct (nth_error l (Z.to_nat j)) as [x|] eqn:E; [|discriminate].
+  assert (Hl : l' = firstn (Z.to_nat j) l ++ f x :: skipn (S (Z.to_nat j)) l) by (injection H; intros; subst; reflexivity).
+  destruct (nth_error_split l _ x E) as [Hs Hn].
+  rewrite Hl. rewrite nth_error_mid. rewrite Hn.
+  destruct (Nat.eqb_spec k (Z.to_nat j)) as [K|K].
+  - subst k. rewrite E. reflexivity.
+  - rewrite Hs at 3. rewrite nth_error_mid. rewrite Hn.
+    destruct (Nat.eqb_spec k (Z.to_nat j)); [contradiction|]. reflexivity.
+Qed.
+
+Lemma list_ext : forall {A} (a b : list A), (forall k, nth_error a k = nth_error b k) -> a = b.
+Proof.
+  intros A a; induction a as [|x a IH]; intros [|y b] H.
+  - reflexivity.
+  - specialize (H 0%nat); discriminate.
+  - specialize (H 0%nat); discriminate.
+  - pose proof (H 0%nat) as H0. simpl in H0. inversion H0; subst. f_equal. apply IH. intros k. exact (H (S k)).
+Qed.
+
+Lemma upd_keeps_names : forall cs cs' j (g : ctl -> ctl), (forall c, c_name (g c) = c_name c) ->
+  upd cs j g = Some cs' -> map c_name cs' = map c_name cs.
+Proof.
+  intros cs cs' j g Hg H. apply list_ext. intros k. rewrite !nth_error_map.
+  rewrite (nth_error_upd _ _ _ _ H k). destruct (Nat.eqb k (Z.to_nat j)); [|reflexivity].
+  destruct (nth_error cs k); simpl; [rewrite Hg|]; reflexivity.
+Qed.
+
+Lemma set_rates_names : forall n cs from rate cs', set_rates cs from n rate = Some cs' -> map c_name cs' = map c_name cs.
+Proof.
+  intros n; induction n as [|n IH]; intros cs from rate cs' H; simpl in H.
+  - inversion H; reflexivity.
+  - destruct (upd cs from _) as [cs1|] eqn:E; [|discriminate].
+    apply IH in H. rewrite H. eapply upd_keeps_names; [|exact E]. reflexivity.
+Qed.
+
+(* the name the reader leaves on slot i: the LAST name-table entry with that index *)
+Fixpoint name_at (names : list (bytes * Z)) (i : Z) (acc : option bytes) : option bytes :=
+  match names with
+  | [] => acc
+  | (n, j) :: r => name_at r i (if j =? i then Some n else acc)
+  end.
+
+Lemma assign_names_spec : forall names cs cs', assign_names cs names = Some cs' ->
+  forall k, option_map c_name (nth_error cs' k)
+            = option_map (fun c => name_at names (Z.of_nat k) (c_name c)) (nth_error cs k).
+Proof.
+  intros names; induction names as [|[n j] r IH]; intros cs cs' H k; simpl in H.
+  - inversion H; subst. simpl. destruct (nth_error cs' k); reflexivity.
+  - destruct (upd cs j _) as [cs1|] eqn:E; [|discriminate].
+    rewrite (IH cs1 cs' H k). rewrite (nth_error_upd _ _ _ _ E k). simpl name_at.
+    assert (Hj : 0 <= j) by (unfold upd in E; destruct ((0 <=? j) && (j <? zlen cs)) eqn:C; [lia | discriminate]).
+    destruct (Nat.eqb_spec k (Z.to_nat j)) as [K|K].
+    + subst k. rewrite Z2Nat.id by lia. rewrite Z.eqb_refl. destruct (nth_error cs (Z.to_nat j)); reflexivity.
+    + replace (j =? Z.of_nat k) with false by (symmetry; apply Z.eqb_neq; lia). reflexivity.
+Qed.
+
+Lemma name_at_acc : forall names i n, name_at names i (Some n) <> None.
+Proof. induction names as [|[m j] r IH]; intros i n; simpl; [discriminate|]. destruct (j =? i); apply IH. Qed.
+
+Lemma name_at_in : forall names n i acc, NoDup (map snd names) -> In (n, i) names -> name_at names i acc = Some n.
+Proof.
+  induction names as [|[m j] r IH]; intros n i acc Hnd Hin; [destruct Hin|].
+  simpl in Hnd. inversion Hnd as [|? ? Hnotin Hnd']; subst. simpl.
+  destruct Hin as [Hin|Hin].
+  - inversion Hin; subst. rewrite Z.eqb_refl.
+    (* no later entry has index i *)
+    clear IH Hnd Hnd'. revert Hnotin. generalize (Some n). induction r as [|[m' j'] r IHr]; intros a Hnotin; [reflexivity|].
+    simpl. simpl in Hnotin. destruct (Z.eqb_spec j' i) as [E|E]; [exfalso; apply Hnotin; left; exact E|].
+    apply IHr. intros H. apply Hnotin. right. exact H.
+  - apply IH; assumption.
+Qed.
+
+(* start_of reads only the slot NAMES of the control array *)
+Definition start_of_n (consts : list Z) (nm : list (option bytes)) (before : list ugen) (i : inp) : option startch :=
+  match i with
+  | IConst k =>
+    match nth_z consts k with
+    | Some w => Some (if word_is_zero w then SQ else SConst w)
+    | None => None
+    end
+  | IOut u c =>
+    match nth_z before u with
+    | None => None
+    | Some src =>
+      if existsb (bytes_eqb (u_cls src)) control_sub_classes
+      then match nth_z nm (c + u_special src) with
+           | Some o => Some (match o with Some n => SName n | None => SQ end)
+           | None => Some (SUgen u c)
+           end
+      else Some (SUgen u c)
+    end
+  end.
+
+Lemma nth_z_map : forall {A B} (f : A -> B) l i, nth_z (map f l) i = option_map f (nth_z l i).
+Proof. intros A B f l i. unfold nth_z. destruct (i <? 0); [reflexivity|]. apply nth_error_map. Qed.
+
+Local Opaque is_ctl_cls in_classes out_classes control_sub_classes.
+
+Lemma start_of_names : forall consts cs before i,
+  start_of consts cs before i = start_of_n consts (map c_name cs) before i.
+Proof.
+  intros consts cs before [k|u c]; simpl; [reflexivity|].
+  destruct (nth_z before u) as [src|]; [|reflexivity].
+  destruct (existsb (bytes_eqb (u_cls src)) control_sub_classes); [|reflexivity].
+  rewrite nth_z_map. destruct (nth_z cs (c + u_special src)); reflexivity.
+Qed.
+
+(* the In / Out descriptors as a function of the slot names alone *)
+Definition io_of (consts : list Z) (nm : list (option bytes)) (before : list ugen) (u : ugen) (nch : Z) : list iodesc :=
+  match u_ins u with
+  | [] => []
+  | i0 :: _ => match start_of_n consts nm before i0 with
+               | Some s => [mkIo (u_rate u) nch s (u_cls u)]
+               | None => []
+               end
+  end.
+Fixpoint io_ins (consts : list Z) (nm : list (option bytes)) (before us : list ugen) : list iodesc :=
+  match us with
+  | [] => []
+  | u :: r =>
+    (if negb (is_ctl_cls (u_cls u)) && existsb (bytes_eqb (u_cls u)) in_classes
+     then io_of consts nm before u (zlen (u_outs u)) else [])
+    ++ io_ins consts nm (before ++ [u]) r
+  end.
+Fixpoint io_outs (consts : list Z) (nm : list (option bytes)) (before us : list ugen) : list iodesc :=
+  match us with
+  | [] => []
+  | u :: r =>
+    (if negb (is_ctl_cls (u_cls u)) && negb (existsb (bytes_eqb (u_cls u)) in_classes)
+     then match assoc_b out_classes (u_cls u) with
+          | Some fixed => io_of consts nm before u (zlen (u_ins u) - fixed)
+          | None => []
+          end
+     else [])
+    ++ io_outs consts nm (before ++ [u]) r
+  end.
+
+Lemma read_units_io : forall consts us cs ins outs before cs' ins' outs',
+  read_units consts cs ins outs before us = Some (cs', ins', outs') ->
+  ins' = ins ++ io_ins consts (map c_name cs) before us
+  /\ outs' = outs ++ io_outs consts (map c_name cs) before us
+  /\ map c_name cs' = map c_name cs.
+Proof.
+  intros consts us; induction us as [|u r IH]; intros cs ins outs before cs' ins' outs' H.
+  - simpl in H. inversion H; subst. simpl. rewrite !app_nil_r. repeat split.
+  - simpl in H.
+    destruct (negb (rate_ok (u_rate u))); [discriminate|].
+    destruct (negb (inputs_resolve (zlen consts) (zlen before) (u_ins u))); [discriminate|].
+    simpl io_ins. simpl io_outs.
+    destruct (is_ctl_cls (u_cls u)) eqn:Ec.
+    + destruct (set_rates cs (u_special u) (List.length (u_outs u)) (u_rate u)) as [cs1|] eqn:Es; [|discriminate].
+      apply set_rates_names in Es. destruct (IH _ _ _ _ _ _ _ H) as [I1 [I2 I3]].
+      rewrite Es in *. simpl. repeat split; assumption.
+    + simpl negb. simpl andb.
+      destruct (existsb (bytes_eqb (u_cls u)) in_classes) eqn:Ei.
+      * unfold io_of. destruct (u_ins u) as [|i0 rest]; [discriminate|].
+        rewrite <- start_of_names.
+        destruct (start_of consts cs before i0) as [s|]; [|discriminate].
+        destruct (IH _ _ _ _ _ _ _ H) as [I1 [I2 I3]]. simpl.
+        rewrite I1, I2, <- app_assoc. repeat split; try reflexivity; assumption.
+      * simpl. destruct (assoc_b out_classes (u_cls u)) as [fixed|].
+        -- unfold io_of. destruct (u_ins u) as [|i0 rest] eqn:Eu; [discriminate|].
+           rewrite <- start_of_names.
+           destruct (start_of consts cs before i0) as [s|]; [|discriminate].
+           destruct (IH _ _ _ _ _ _ _ H) as [I1 [I2 I3]].
+           rewrite I1, I2, <- app_assoc. repeat split; try reflexivity; assumption.
+        -- destruct (IH _ _ _ _ _ _ _ H) as [I1 [I2 I3]]. repeat split; assumption.
+Qed.
+
+(* slot names after the name table has been applied to the all-'?' control array *)
+Definition slot_names (d : sdef) : list (option bytes) :=
+  map (fun k => name_at (d_names d) (Z.of_nat k) None) (seq 0 (List.length (d_ctl d))).
+
+Lemma reader_io_l : forall d ds, desc_of_def d = Some ds ->
+  ds_ins ds = io_ins (d_consts d) (slot_names d) [] (d_units d)
+  /\ ds_outs ds = io_outs (d_consts d) (slot_names d) [] (d_units d).
+Proof.
+  intros d ds H. unfold desc_of_def, desc_of in H.
+  destruct (assign_names _ (d_names d)) as [cs1|] eqn:E1; [|discriminate].
+  destruct (read_units (d_consts d) cs1 [] [] [] (d_units d)) as [[[cs2 ins] outs]|] eqn:E2; [|discriminate].
+  assert (Hn : map c_name cs1 = slot_names d).
+  { apply list_ext. intros k. unfold slot_names. rewrite !nth_error_map.
+    pose proof (assign_names_spec _ _ _ E1 k) as Hs. rewrite Hs. rewrite nth_error_map.
+    pose proof (assign_names_length _ _ _ E1) as Hl. rewrite map_length in Hl.
+    destruct (nth_error (d_ctl d) k) as [w|] eqn:Ew.
+    - simpl. assert (Hk : (k < List.length (d_ctl d))%nat) by (apply nth_error_Some; rewrite Ew; discriminate).
+      rewrite (nth_error_nth' _ 0%nat) by (rewrite seq_length; exact Hk).
+      rewrite seq_nth by exact Hk. reflexivity.
+    - simpl. assert (Hk : (List.length (d_ctl d) <= k)%nat) by (apply nth_error_None; exact Ew).
+      replace (nth_error (seq 0 (List.length (d_ctl d))) k) with (@None nat)
+        by (symmetry; apply nth_error_None; rewrite seq_length; exact Hk).
+      reflexivity. }
+  destruct (read_units_io _ _ _ _ _ _ _ _ _ E2) as [I1 [I2 _]]. rewrite Hn in I1, I2. simpl in I1, I2.
+  destruct cs2 as [|c cs2].
+  - inversion H; subst; simpl. split; reflexivity.
+  - destruct (c_name c) eqn:Ec; [|discriminate].
+    destruct (existsb (bytes_eqb qmark) _) eqn:Eq; [discriminate|].
+    destruct (has_dup _) eqn:Ed; [discriminate|].
+    destruct (255 <? _) eqn:E255; [discriminate|].
+    inversion H; subst; simpl. split; reflexivity.
+Qed.
+
+(* the mapping itself: a bus input that is output c of ANY control unit (Control / TrigControl /
+   LagControl, first or later one) with special index sp is described by the name the table gives to
+   slot sp + c *)
+Lemma bus_control_name_l : forall d u c src n before consts,
+  nth_z before u = Some src ->
+  existsb (bytes_eqb (u_cls src)) control_sub_classes = true ->
+  NoDup (map snd (d_names d)) ->
+  In (n, c + u_special src) (d_names d) ->
+  0 <= c + u_special src < zlen (d_ctl d) ->
+  start_of_n consts (slot_names d) before (IOut u c) = Some (SName n).
+Proof.
+  intros d u c src n before consts Hsrc Hcls Hnd Hin Hr. simpl. rewrite Hsrc, Hcls.
+  unfold slot_names. rewrite nth_z_map. unfold nth_z.
+  replace (c + u_special src <? 0) with false by (symmetry; apply Z.ltb_ge; lia).
+  unfold zlen in Hr.
+  rewrite (nth_error_nth' _ 0%nat) by (rewrite seq_length; lia).
+  rewrite seq_nth by lia. simpl. rewrite Z2Nat.id by lia.
+  rewrite (name_at_in _ n _ None Hnd Hin). reflexivity.
 Qed.
